@@ -491,3 +491,8 @@ def check_hunt(case, ctx):
 
 
 SUBS.append(Sub('hunt', check_hunt, enumerate=hunt_cases, shards_quick=1, shards_thorough=1))
+
+
+from vlib.reported import reported_sub  # noqa: E402
+
+SUBS.append(reported_sub('C03'))
